@@ -151,6 +151,10 @@ func checkC11(o options) int {
 			}
 			// fresh-process confirmation
 			rout, rerr := run(scratch, cmdEnv, bin, "c11-replay", "--racelog", rlog, final)
+			for try := 0; try < 4 && strings.HasPrefix(v.Class, "race:") && (rerr == nil || !strings.Contains(rout, "REPRODUCED class="+v.Class)); try++ {
+				// race verdicts depend on the detector's bounded shadow memory (DESIGN.md section 9)
+				rout, rerr = run(scratch, cmdEnv, bin, "c11-replay", "--racelog", rlog, final)
+			}
 			if rerr == nil || !strings.Contains(rout, "REPRODUCED class="+v.Class) {
 				die(2, "C11: replay of %s did not reproduce class %s in a fresh process (simulator nondeterminism?):\n%s", final, v.Class, tail(rout, 10))
 			}
@@ -322,7 +326,15 @@ func replayC11(o options) int {
 	useRace := rp.Race == nil || *rp.Race
 	builds := prepareAll(prepOpts{instrumented: true, race: useRace, name: "race"})
 	rlog := filepath.Join(scratch, "racelog-replay")
+	var rc struct {
+		Class string `json:"class"`
+	}
+	readJSONFile(o.replay, &rc)
 	out, err := run(scratch, append(os.Environ(), goraceEnv(rlog)...), builds[0].bin, "c11-replay", "--racelog", rlog, o.replay)
+	for try := 0; try < 4 && err == nil && strings.HasPrefix(rc.Class, "race:"); try++ {
+		// a race report depends on the detector's bounded shadow memory: a few fresh processes
+		out, err = run(scratch, append(os.Environ(), goraceEnv(rlog)...), builds[0].bin, "c11-replay", "--racelog", rlog, o.replay)
+	}
 	fmt.Print(out)
 	if err == nil {
 		fmt.Println("replay: violation NOT reproduced on the current tree")
